@@ -31,8 +31,8 @@ CHECKS = {
                      "flight <= pre_dispatch, 'all' taken up front, no pull after abort/close) evaluated at every "
                      "pull under seeded schedules; inputs up to 400 items so that an unbounded look-ahead shows.",
                 note="Same trusted base as C01. The bound (pre_dispatch + n_jobs) * batch size is derived from the "
-                     "documented contract; known finding F9b (inline completion during the initial loop) is keyed "
-                     "by its cause and reported as KNOWN-FINDING."),
+                     "documented contract; the inline completion during the initial loop (F9b, repaired) is one "
+                     "of the stamped causes."),
     "C16": dict(engine="detsched+simpool", cat="exploration", ref="DESIGN.md section 3 (C16)",
                 technique="deterministic simulation: seeded consumer scripts (next/close/drop/foreign-thread drop/"
                           "overlapping call) against seeded completion schedules, with a stall-all-workers fault for promptness",
